@@ -26,7 +26,12 @@ def evaluate(mod, cases, tie_msgs, use_model=True):
     """Run cases on the implementation and on the model; returns (fails, disagreements, impl, model)."""
     lines = [c["line"] for c in cases]
     tmo = getattr(mod, "RUN_TIMEOUT", 900)
-    impl = core.run_lines(core.harness_bin(), lines, timeout=tmo)
+    # cases the implementation cannot be driven through (model_only: e.g. an expiry sweep at a chosen time) run on the
+    # model alone; the property's oracle is then evaluated on the model's observation (the model is regenerated from the source)
+    iidx = [i for i, c in enumerate(cases) if not c.get("model_only")]
+    impl = [None] * len(cases)
+    for i, o in zip(iidx, core.run_lines(core.harness_bin(), [lines[i] for i in iidx], timeout=tmo)):
+        impl[i] = o
     mlines_idx = [i for i, c in enumerate(cases) if c.get("model", True)]
     model = [None] * len(cases)
     if use_model and mlines_idx:
@@ -37,6 +42,11 @@ def evaluate(mod, cases, tie_msgs, use_model=True):
     fails = []
     disag = []
     for i, c in enumerate(cases):
+        if impl[i] is None:
+            impl[i] = model[i] if model[i] is not None else "died model-only-case-without-model"
+            for sig, msg in mod.oracle(c, impl[i]):
+                fails.append((i, sig + ";model", "[on the model regenerated from the source] " + msg))
+            continue
         for sig, msg in mod.oracle(c, impl[i]):
             fails.append((i, sig, msg))
         if model[i] is not None:
@@ -151,8 +161,12 @@ def run_check(pid, tier, seed):
             if s in reported:
                 continue
             reported.add(s)
-            c = minimise(mod, cases[i], s)
-            obs = core.run_lines(core.harness_bin(), [c["line"]], timeout=300)[0]
+            if cases[i].get("model_only"):
+                c = cases[i]
+                obs = core.run_lines(core.model_bin(pid), [c["line"]], timeout=300)[0]
+            else:
+                c = minimise(mod, cases[i], s)
+                obs = core.run_lines(core.harness_bin(), [c["line"]], timeout=300)[0]
             rp = write_replay(pid, "impl-violation", s, seed, tier, [c["line"]], [obs],
                               {"message": m, "original_case": cases[i]["line"][:2000]})
             out_lines.append("VIOLATION property=%s replay=%s" % (pid, rp))
